@@ -12,9 +12,10 @@
         if t.n == 1 { oldM = x; newM = x; oldS = 0 }
         else { newM = oldM + (x-oldM)/n; newS = oldS + (x-oldM)*(x-newM); oldM = newM; oldS = newS }
         t.dev = sqrt(newS / (n-1)); t.sum += x }
-   Nothing but [sum] is reset between two calls of Collect in the pinned code
-   (defect F21) and [max] starts from 0 (defect F22).  Both planned repairs are
-   boolean parameters:
+   In the tree as it was pinned nothing but [sum] was reset between two calls of
+   Collect (defect F21) and [max] started from 0 (defect F22).  Both repairs
+   (fix: commits of /repo, selected by Corr/C19.v) are boolean parameters; with
+   both false the functions describe the pinned tree:
      fix_f21 : Collect starts from zeroed accumulators (n, min, max, sum, M, S, dev)
      fix_f22 : max is initialised from the first value (as min already is)
 
